@@ -52,7 +52,7 @@ fn type_call(rng: &mut Rng) -> Option<BOp> {
     };
     Some(BOp::Call {
         method: name,
-        arg_seed: rng.below(7),
+        arg_seed: if rng.chance(2, 3) { rng.below(7) } else { rng.below(64) },
         explicit_rid: rng.chance(1, 4),
         ip_kind: 0,
         ip_k: 0,
@@ -101,7 +101,7 @@ impl Property for C13 {
                 9 => gen_call(rng, MClass::ModuleLevel).unwrap_or(BOp::Id),
                 10 => BOp::Call {
                     // module-level calls that relate to types: decorations, constants, forward pointers
-                    method: rng.pick(&["decorate", "decorate", "constant_bit32", "constant_bit32", "type_forward_pointer", "member_decorate"]).to_string(),
+                    method: rng.pick(&["decorate", "decorate", "constant_bit32", "constant_bit32", "type_forward_pointer", "member_decorate", "capability", "capability", "extension", "memory_model", "name"]).to_string(),
                     arg_seed: rng.next(),
                     explicit_rid: false,
                     ip_kind: 0,
